@@ -631,6 +631,18 @@ func checkRefusedNoIO(p *Prog, r *Report, ru *Rule, a *connectAnchors) {
 								if !isProxyArg(z, a.Fn, proxyIdx) {
 									return false
 								}
+							case *ssa.MakeInterface:
+								/* The struct is itself the proxy (a one-method
+								value handed to the admission function). */
+								for _, r3 := range *z.Referrers() {
+									if _, isDbg := r3.(*ssa.DebugRef); isDbg {
+										continue
+									}
+									ci, isCall := r3.(ssa.CallInstruction)
+									if !isCall || ci.Common().StaticCallee() != a.Fn || proxyIdx < 0 || proxyIdx >= len(ci.Common().Args) || ci.Common().Args[proxyIdx] != ssa.Value(z) {
+										return false
+									}
+								}
 							case *ssa.Field:
 								if z.Field == fld {
 									visit(z)
@@ -879,6 +891,16 @@ func checkDetachedSilent(p *Prog, r *Report, ru *Rule, a *connectAnchors) {
 		if idx := paramIndex(a.Fn, a.Proxy); idx >= 0 && idx < len(ci.Common().Args) {
 			if cf, _ := closureOf(p.resolveUp(ci.Common().Args[idx])); nil != cf {
 				roots = append(roots, cf)
+			} else if mi, isMI := p.resolveUp(ci.Common().Args[idx]).(*ssa.MakeInterface); isMI {
+				/* A one-method value: the method of the concrete type. */
+				if it, isIt := a.Proxy.Type().Underlying().(*types.Interface); isIt && 1 == it.NumMethods() {
+					ms := p.SSA.MethodSets.MethodSet(mi.X.Type())
+					if sel := ms.Lookup(it.Method(0).Pkg(), it.Method(0).Name()); nil != sel {
+						if mf := p.SSA.MethodValue(sel); nil != mf && nil != mf.Blocks {
+							roots = append(roots, mf)
+						}
+					}
+				}
 			}
 		}
 	}
